@@ -1,6 +1,9 @@
 package sshnego
 
-import "testing"
+import (
+	"strings"
+	"testing"
+)
 
 func l(s ...string) []string { return s }
 
@@ -46,5 +49,60 @@ func TestNegotiate(t *testing.T) {
 	}
 	if _, ok := FirstCommon(l("a"), nil); ok {
 		t.Fatal()
+	}
+}
+
+// A KEXINIT written out by hand from RFC 4253 §7.1 (every list distinct so
+// that no two slots can be confused).
+func TestWireKexInit(t *testing.T) {
+	want := []byte{20}
+	for i := 0; i < 16; i++ {
+		want = append(want, byte(0xa0+i))
+	}
+	add := func(s string) {
+		want = append(want, 0, 0, 0, byte(len(s)))
+		want = append(want, s...)
+	}
+	add("k1,k2")
+	add("h1")
+	add("c-cs,x")
+	add("c-sc")
+	add("m-cs")
+	add("m-sc,y,z")
+	add("none")
+	add("zlib,none")
+	add("")
+	add("en")
+	want = append(want, 1, 0, 0, 0, 7)
+	w := WireKexInit{FirstFollows: true, Reserved: 7}
+	for i := range w.Cookie {
+		w.Cookie[i] = byte(0xa0 + i)
+	}
+	w.Lists = [NumSlots][]string{l("k1", "k2"), l("h1"), l("c-cs", "x"), l("c-sc"), l("m-cs"), l("m-sc", "y", "z"), l("none"), l("zlib", "none"), nil, l("en")}
+	got := w.Encode()
+	if string(got) != string(want) {
+		t.Fatalf("encode\n got %x\nwant %x", got, want)
+	}
+	d, err := DecodeKexInit(want)
+	if err != nil {
+		t.Fatal(err)
+	}
+	for i := 0; i < NumSlots; i++ {
+		if strings.Join(d.Lists[i], ",") != strings.Join(w.Lists[i], ",") {
+			t.Fatalf("slot %s: %v", SlotNames[i], d.Lists[i])
+		}
+	}
+	if !d.FirstFollows || d.Reserved != 7 || d.Cookie != w.Cookie {
+		t.Fatal("trailer/cookie")
+	}
+	k := d.KexInit()
+	if k.MACCS[0] != "m-cs" || k.MACSC[0] != "m-sc" || k.CipherCS[0] != "c-cs" || k.CipherSC[0] != "c-sc" || k.CompCS[0] != "none" || k.CompSC[0] != "zlib" {
+		t.Fatalf("%+v", k)
+	}
+	if _, err := DecodeKexInit(want[:len(want)-1]); err == nil {
+		t.Fatal("truncated accepted")
+	}
+	if _, err := DecodeKexInit(append(want, 0)); err == nil {
+		t.Fatal("trailing byte accepted")
 	}
 }
